@@ -81,3 +81,45 @@ Proof.
   intros Hwf D1 D2. apply (decode_type_ignores_fields (set_mtype m meth class) m m'' m'); try assumption.
   reflexivity.
 Qed.
+
+(* The transaction ID inside the header, the same way: the setter writes the twelve bytes of the value
+   over bytes 8..20 - whether or not the field already held that value, whatever the bytes held -
+   and a decode reads the ID from the bytes. *)
+Lemma set_tid_writes m tid m' : wf (m_raw m) -> 20 <= len (m_raw m) -> lenN tid = 12 ->
+  write_tid (set_tid m tid) = Ok m' ->
+  bytes (m_raw m') = take 8 (bytes (m_raw m)) ++ tid ++ drop 20 (bytes (m_raw m)) /\ m_tid m' = tid.
+Proof.
+  intros Hwf H20 Ht E.
+  destruct (refine_write_tid (set_tid m tid) Hwf H20) as (m1 & E1 & _ & _ & V).
+  rewrite E in E1. injection E1 as <-.
+  pose proof (write_tid_fields _ _ E) as F. apply fields_eq in F. destruct F as (_ & _ & _ & Ft & _).
+  split; [|exact Ft].
+  apply (f_equal am_raw) in V. cbn [vis am_raw a_write_tid a_with_raw am_tid set_tid m_tid m_raw] in V.
+  rewrite V. unfold lpoke. rewrite (take_all 12 tid) by lia. rewrite Ht. reflexivity.
+Qed.
+
+Lemma decode_tid_from_bytes m m' : wf (m_raw m) -> decode m = (m', Ok tt) ->
+  m_tid m' = take 12 (drop 8 (bytes (m_raw m))).
+Proof.
+  intros Hwf Hd. pose proof (decode_spec m Hwf) as H. cbv zeta in H.
+  destruct (rfc_parse (bytes (m_raw m))) as [r|] eqn:Er.
+  - destruct H as (m'' & Hd' & _ & _ & Htid & _). rewrite Hd in Hd'. injection Hd' as <-.
+    rewrite Htid. unfold rfc_parse in Er.
+    destruct (lenN (bytes (m_raw m)) <? 20); [discriminate|].
+    destruct (negb _); [discriminate|]. destruct (lenN (bytes (m_raw m)) <? _); [discriminate|].
+    destruct (rfc_tlvs _ _); [|discriminate]. injection Er as <-. reflexivity.
+  - destruct H as (m'' & e & Hd'). rewrite Hd in Hd'. discriminate.
+Qed.
+
+Lemma set_tid_then_decode m tid m1 m2 : wf (m_raw m) -> 20 <= len (m_raw m) -> lenN tid = 12 ->
+  write_tid (set_tid m tid) = Ok m1 -> decode m1 = (m2, Ok tt) -> m_tid m2 = tid.
+Proof.
+  intros Hwf H20 Ht Es Hd.
+  destruct (refine_write_tid (set_tid m tid) Hwf H20) as (m' & E' & Hwf' & _).
+  rewrite Es in E'. injection E' as <-.
+  destruct (set_tid_writes m tid m1 Hwf H20 Ht Es) as (Hb & _).
+  rewrite (decode_tid_from_bytes _ _ Hwf' Hd), Hb.
+  assert (L8 : lenN (take 8 (bytes (m_raw m))) = 8).
+  { rewrite lenN_take, (lenN_bytes _ Hwf). lia. }
+  rewrite <- L8 at 1. rewrite drop_app_exact. rewrite <- Ht. apply take_app_exact.
+Qed.
